@@ -1,6 +1,7 @@
 package main
 
 import (
+	"regexp"
 	"fmt"
 	"go/token"
 	"go/types"
@@ -35,6 +36,8 @@ type Engine struct {
 	compSorts  map[string]func(*Gen) string
 
 	nonNilResult map[string]bool
+	freshResult map[string]bool
+	preludeSyms map[string]bool
 	effectFreeFn map[string]bool
 	effectFreePk []string
 	contractFiles []string
@@ -46,7 +49,7 @@ func NewEngine(repo, verifDir string) *Engine {
 	return &Engine{repo: repo, verifDir: verifDir,
 		contracts: map[string]*Contract{}, ifaceCons: map[string]*Contract{}, funcTypeCons: map[string]*Contract{},
 		implCache: map[string][]*ssa.Function{}, compSorts: map[string]func(*Gen) string{},
-		nonNilResult: map[string]bool{}, effectFreeFn: map[string]bool{}, defs: map[string]*Def{}}
+		freshResult: map[string]bool{}, preludeSyms: map[string]bool{}, nonNilResult: map[string]bool{}, effectFreeFn: map[string]bool{}, defs: map[string]*Def{}}
 }
 
 // Load loads and builds SSA for the given package patterns (relative to repo).
@@ -74,7 +77,7 @@ func (e *Engine) Load(patterns []string) error {
 		e.fset = pkgs[0].Fset
 		e.sizes = pkgs[0].TypesSizes
 	}
-	prog, spkgs := ssautil.Packages(pkgs, ssa.InstantiateGenerics)
+	prog, spkgs := ssautil.Packages(pkgs, ssa.InstantiateGenerics|ssa.GlobalDebug)
 	prog.Build()
 	e.prog = prog
 	e.spkgs = spkgs
@@ -170,6 +173,7 @@ func (e *Engine) Load(patterns []string) error {
 	if err := e.loadEffectFree(); err != nil {
 		return err
 	}
+	e.loadPreludeSyms()
 	e.computeModsets()
 	return nil
 }
@@ -205,6 +209,10 @@ func (e *Engine) loadEffectFree() error {
 		}
 		for _, opt := range f[1:] {
 			if opt == "nonnil" {
+				e.nonNilResult[name] = true
+			}
+			if opt == "fresh" {
+				e.freshResult[name] = true
 				e.nonNilResult[name] = true
 			}
 		}
@@ -523,4 +531,61 @@ func goEnv() []string {
 		env = append(env, kv)
 	}
 	return append(env, "PATH="+path, "GOFLAGS=-mod=mod", "GOPROXY=off", "GOTOOLCHAIN=local")
+}
+
+// typesInfo returns the go/types info of the package a function belongs to.
+func (e *Engine) typesInfo(fn *ssa.Function) *types.Info {
+	for fn.Parent() != nil {
+		fn = fn.Parent()
+	}
+	if fn.Pkg == nil {
+		return nil
+	}
+	for _, p := range e.pkgs {
+		if p.Types == fn.Pkg.Pkg {
+			return p.TypesInfo
+		}
+	}
+	return nil
+}
+
+var symRe = regexp.MustCompile(`[A-Za-z_][A-Za-z0-9_!.$-]*`)
+
+// loadPreludeSyms collects every symbol mentioned in the spec preludes, so that
+// a contract identifier that is neither bound nor declared there is an error
+// instead of a malformed solver query.
+func (e *Engine) loadPreludeSyms() {
+	ms, _ := filepath.Glob(filepath.Join(e.verifDir, "spec", "*.smt2"))
+	for _, m := range ms {
+		b, err := os.ReadFile(m)
+		if err != nil {
+			continue
+		}
+		for _, l := range strings.Split(string(b), "\n") {
+			if i := strings.Index(l, ";"); i >= 0 {
+				l = l[:i]
+			}
+			for _, s := range symRe.FindAllString(l, -1) {
+				e.preludeSyms[s] = true
+			}
+		}
+	}
+}
+
+// constByName finds a package-level constant by bare name in the loaded packages
+// and their imports (first match; used for enum constants in contracts).
+func (e *Engine) constByName(name string) *types.Const {
+	for _, p := range e.pkgs {
+		if c, ok := p.Types.Scope().Lookup(name).(*types.Const); ok {
+			return c
+		}
+	}
+	for _, p := range e.pkgs {
+		for _, imp := range p.Types.Imports() {
+			if c, ok := imp.Scope().Lookup(name).(*types.Const); ok && strings.HasPrefix(imp.Path(), "github.com/conduitio/") {
+				return c
+			}
+		}
+	}
+	return nil
 }
